@@ -66,6 +66,33 @@ class EnumRng(_Fallback):
         self.log.append(("normal", loc, scale, v))
         return v
 
+    # other ways of drawing a class or a number: every answer of a small integer range, a grid of the unit interval
+    def integers(self, low, high=None, size=None, dtype=None, endpoint=False, **kw):
+        if high is None:
+            low, high = 0, low
+        n = int(high) - int(low) + (1 if endpoint else 0)
+        if size is not None or n <= 0 or n > 512:
+            return _Fallback.__getattr__(self, "integers")(low, high, size=size, endpoint=endpoint)
+        # every value of a small range; of a larger one both ends (4 values each) and a stride through the middle
+        vals = list(range(n)) if n <= 16 else sorted(set(range(4)) | set(range(n - 4, n)) | set(range(0, n, max(1, n // 12))))
+        k = self.ch.choose(len(vals), "integers")
+        self.log.append(("integers", int(low), int(high), int(low) + vals[k]))
+        return int(low) + vals[k]
+
+    UNIT = [0.5] + [i / 16 for i in range(16) if i != 8] + [0.995, 0.9999, 1 - 2.0 ** -40]
+
+    def random(self, size=None, **kw):
+        if size is not None:
+            return _Fallback.__getattr__(self, "random")(size, **kw)
+        k = self.ch.choose(len(self.UNIT), "random")
+        self.log.append(("random", self.UNIT[k]))
+        return self.UNIT[k]
+
+    def uniform(self, low=0.0, high=1.0, size=None):
+        if size is not None:
+            return _Fallback.__getattr__(self, "uniform")(low, high, size)
+        return low + (high - low) * self.random()
+
 
 def params(**kw):
     p = parse_args_with_defaults(dict(kw))
@@ -345,7 +372,7 @@ def main(tier, seed):
     bound = 2 if q else 3
     rep.cov["rule"] = (f"(i) WorkloadGenerator.rng replaced by an enumerating environment (choice: every class with p>0; normal: loc+scale*z, z in {ZS}, index 0 default): ALL answer sequences with <={bound} non-default answers over 3 arrival events "
                        "for num_pipelines 1,2,3 x num_operators 1,2,5 x waiting mean 0.4/3/50 ticks x probability triples with zeros; structural well-formedness + argument binding of every draw; "
-                       "(ii) binding for all 66 probability triples; (iii) exact discretised expectations over 256 equiprobable normal quantiles, one draw at a time (operator count, gap, prototype rank vs cpu_io_ratio 0..1); "
+                       "(ii) binding for all 66 probability triples in tenths plus 9 triples with a zero and members that are not whole percents (a generator that draws a class through an integer or a unit-interval sample is enumerated over every integer / a 19-point grid); (iii) exact discretised expectations over 256 equiprobable normal quantiles, one draw at a time (operator count, gap, prototype rank vs cpu_io_ratio 0..1); "
                        "(iv) the real numpy generator for a seed range. states = distinct generated event sequences; non-trivial = sequences containing a non-default answer")
     cfgs = []
     for npipe in (1, 2, 3):
@@ -367,7 +394,9 @@ def main(tier, seed):
     rep.part("structure", configurations=len(cfgs), executions=sum(r["n"] for r in res), draws_answered=sum(r["draws"] for r in res), distinct_outputs=sum(r["outs"] for r in res))
     # (ii) all 66 triples, binding only (1 event, bound 1)
     from ..families.f6 import triples
-    tcfgs = [dict(npipe=2, nops=1, wait_ticks=3, tps=10, ratio=0.5, probs=t, bound=1, events=1) for t in triples()]
+    # ... plus triples with a zero whose other members are not whole percents (0.29 * 100 = 28.999999999999996 in floats)
+    odd = [(0.29, 0.71, 0.0), (0.57, 0.43, 0.0), (0.335, 0.665, 0.0), (0.0, 0.29, 0.71), (0.29, 0.0, 0.71), (0.145, 0.0, 0.855), (0.0, 0.57, 0.43), (1 / 3, 2 / 3, 0.0), (0.0, 1 / 3, 2 / 3)]
+    tcfgs = [dict(npipe=2, nops=1, wait_ticks=3, tps=10, ratio=0.5, probs=t, bound=1, events=1) for t in list(triples()) + odd]
     res2 = pmap(structure_case, tcfgs, chunks=4)
     for r in res2:
         rep.cov["evaluations"] += r["n"]
